@@ -62,6 +62,10 @@
 #include <GeographicLib/Gnomonic.hpp>
 #include <GeographicLib/PolygonArea.hpp>
 #include <GeographicLib/DST.hpp>
+#include <GeographicLib/Accumulator.hpp>
+#include <GeographicLib/GeoCoords.hpp>
+#include <GeographicLib/Intersect.hpp>
+#include <GeographicLib/NearestNeighbor.hpp>
 #include "kissfft.hh"
 using namespace GeographicLib; using namespace gv;
 
@@ -483,13 +487,17 @@ static Suite mk_magnetic(uint64_t seed, bool) {
   return S;
 }
 static uint64_t mix(uint64_t z) { z += 0x9e3779b97f4a7c15ULL; z = (z ^ (z >> 30)) * 0xbf58476d1ce4e5b9ULL; z = (z ^ (z >> 27)) * 0x94d049bb133111ebULL; return z ^ (z >> 31); }
-static Suite mk_geoid(uint64_t seed, bool) {
-  Suite S; S.cls = "Geoid(threadsafe)"; Rng g(seed ^ 0x9E3779B1);
-  int w = 2 * (2 + int(g.next() % 12)), h = 2 * (2 + int(g.next() % 8)) + 1;
+static std::string write_pgm(uint64_t seed, int w, int h) {
   std::string name = "gvgeoid" + std::to_string(getpid()) + "_" + std::to_string(seed % 100000), path = tmpdir() + "/" + name + ".pgm";
   { std::ofstream f(path, std::ios::binary); f << "P5\n# Description synthetic raster\n# Offset -108\n# Scale 0.003\n# MaxBilinearError 0.1\n" << w << " " << h << "\n65535\n";
     for (long i = 0; i < long(w) * h; ++i) { unsigned p = unsigned(mix(seed + uint64_t(i)) & 0xffff); f.put(char(p >> 8)); f.put(char(p & 0xff)); } }
   tmpfiles().push_back(path);
+  return name;
+}
+static Suite mk_geoid(uint64_t seed, bool) {
+  Suite S; S.cls = "Geoid(threadsafe)"; Rng g(seed ^ 0x9E3779B1);
+  int w = 2 * (2 + int(g.next() % 12)), h = 2 * (2 + int(g.next() % 8)) + 1;
+  std::string name = write_pgm(seed, w, h);
   for (int cubic = 0; cubic < 2; ++cubic) {
     auto gp = S.own(new Geoid(name, tmpdir(), cubic == 1, true)); const Geoid* geoid = gp.get();
     for (int k = 0; k < 16; ++k) {
@@ -500,6 +508,75 @@ static Suite mk_geoid(uint64_t seed, bool) {
     S.add("accessors#" + std::to_string(cubic), [=](Res& r) { Pi(r, geoid->ThreadSafe()); Pi(r, geoid->Cache()); P(r, geoid->CacheWest()); P(r, geoid->CacheEast()); P(r, geoid->CacheNorth()); P(r, geoid->CacheSouth()); P(r, geoid->Offset()); P(r, geoid->Scale()); Ps(r, geoid->Interpolation());
       // changing the cache of a thread-safe geoid must be refused (and must not write)
       bool threw = false; try { geoid->CacheArea(-10, 0, 10, 20); } catch (const GeographicErr&) { threw = true; } Pi(r, threw); geoid->CacheClear(); Pi(r, geoid->Cache()); });
+  }
+  return S;
+}
+// ---- projections built on a shared geodesic solver, polygon-area test functions, DST, Accumulator -----------------
+static Suite mk_geodproj(uint64_t seed, bool) {
+  Suite S; S.cls = "GeodesicProjections"; Rng g(seed); Ell e = pickEll(g, false, true);
+  auto gp = S.own(new Geodesic(e.a, e.f)); auto gx = S.own(new Geodesic(e.a, e.f, true));
+  for (int j = 0; j < 2; ++j) {
+    const Geodesic* geod = j ? gx.get() : gp.get();
+    auto ae = S.own(new AzimuthalEquidistant(*geod)); auto gn = S.own(new Gnomonic(*geod));
+    double lat0 = g.range(-80, 80), lon0 = lon_(g);
+    auto cs = S.own(new CassiniSoldner(lat0, lon0, *geod));
+    const AzimuthalEquidistant* a = ae.get(); const Gnomonic* n = gn.get(); const CassiniSoldner* c = cs.get();
+    for (int k = 0; k < 6; ++k) {
+      double lat = std::fmax(-89.0, std::fmin(89.0, lat0 + g.range(-30, 30))), lon = lon0 + g.range(-40, 40), x = g.range(-2e6, 2e6), y = g.range(-2e6, 2e6); std::string t = std::to_string(j) + "." + std::to_string(k);
+      S.add("AzimuthalEquidistant#" + t, [=](Res& r) { double X, Y, az, rk; a->Forward(lat0, lon0, lat, lon, X, Y, az, rk); P(r, X); P(r, Y); P(r, az); P(r, rk); double la, lo; a->Reverse(lat0, lon0, x, y, la, lo, az, rk); P(r, la); P(r, lo); P(r, az); P(r, rk); P(r, a->EquatorialRadius()); });
+      S.add("Gnomonic#" + t, [=](Res& r) { double X, Y, az, rk; n->Forward(lat0, lon0, lat, lon, X, Y, az, rk); P(r, X); P(r, Y); P(r, az); P(r, rk); double la, lo; n->Reverse(lat0, lon0, x, y, la, lo, az, rk); P(r, la); P(r, lo); P(r, az); P(r, rk); P(r, n->Flattening()); });
+      S.add("CassiniSoldner#" + t, [=](Res& r) { double X, Y, az, rk; c->Forward(lat, lon, X, Y, az, rk); P(r, X); P(r, Y); P(r, az); P(r, rk); double la, lo; c->Reverse(x, y, la, lo, az, rk); P(r, la); P(r, lo); P(r, az); P(r, rk); P(r, c->LatitudeOrigin()); P(r, c->LongitudeOrigin()); });
+    }
+  }
+  return S;
+}
+template<class PA, class G> static void poly_calls(Suite& S, const char* nm, const G* geod, Rng& g) {
+  for (int pl = 0; pl < 2; ++pl) {
+    auto pp = S.own(new PA(*geod, pl == 1)); PA* q = pp.get();
+    double la = g.range(-60, 60), lo = lon_(g);
+    for (int k = 0; k < 5; ++k) q->AddPoint(la + 10 * std::sin(1.3 * k) + g.range(-1, 1), lo + 12 * std::cos(1.3 * k));
+    if (pl == 0) q->AddEdge(g.range(-180, 180), g.range(1e4, 1e6));
+    const PA* p = q;
+    for (int k = 0; k < 4; ++k) {
+      double lat = la + g.range(-20, 20), lon = lo + g.range(-20, 20), azi = azi_(g), s = g.range(1e3, 2e6); bool rev = g.coin(), sign = g.coin(); std::string t = std::string(nm) + std::to_string(pl) + "." + std::to_string(k);
+      S.add("Compute/TestPoint/TestEdge#" + t, [=](Res& r) { double per = 1, ar = 2; Pi(r, p->Compute(rev, sign, per, ar)); P(r, per); P(r, ar); Pi(r, p->TestPoint(lat, lon, rev, sign, per, ar)); P(r, per); P(r, ar); Pi(r, p->TestEdge(azi, s, rev, sign, per, ar)); P(r, per); P(r, ar);
+        double a1, b1; p->CurrentPoint(a1, b1); P(r, a1); P(r, b1); P(r, p->EquatorialRadius()); });
+    }
+  }
+}
+static Suite mk_polygon(uint64_t seed, bool) {
+  Suite S; S.cls = "PolygonArea"; Rng g(seed); Ell e = pickEll(g, false, true);
+  auto g1 = S.own(new Geodesic(e.a, e.f)); auto g2 = S.own(new GeodesicExact(e.a, e.f)); auto g3 = S.own(new Rhumb(e.a, e.f, g.coin()));
+  poly_calls<PolygonArea, Geodesic>(S, "series", g1.get(), g); poly_calls<PolygonAreaExact, GeodesicExact>(S, "exact", g2.get(), g); poly_calls<PolygonAreaRhumb, Rhumb>(S, "rhumb", g3.get(), g);
+  return S;
+}
+// generic = false: 5-smooth sizes (the only ones GeodesicExact uses, cf. fft_sizes_smooth); generic = true: 2N has a prime factor > 5, so
+// that kissfft takes its generic butterfly (DST used directly by a caller)
+static Suite mk_dst(const char* cls, bool generic, uint64_t seed, bool) {
+  Suite S; S.cls = cls; Rng g(seed);
+  static const int Ns[] = {4, 6, 12, 48, 96, 7, 11, 35};
+  for (int j = 0; j < 3; ++j) {
+    int N = Ns[(g.next() % (generic ? 3 : 5)) + (generic ? 5 : 0)];
+    auto dp = S.own(new DST(N)); const DST* d = dp.get();
+    for (int k = 0; k < 4; ++k) {
+      double c1 = g.range(-1, 1), c2 = g.range(-1, 1), x = g.range(-3, 3), y = g.range(-3, 3); std::string t = std::to_string(j) + "." + std::to_string(k);
+      S.add("transform/refine/eval#" + t, [=](Res& r) { std::vector<double> F(size_t(2 * N), 0.0); auto f = [=](double th) { return c1 * std::sin(th) + c2 * std::sin(3 * th) / (2 + std::cos(th)); };
+        d->transform(f, F.data()); for (int i = 0; i < N; ++i) P(r, F[size_t(i)]); d->refine(f, F.data()); for (int i = 0; i < 2 * N; i += 3) P(r, F[size_t(i)]);
+        P(r, DST::eval(std::sin(x), std::cos(x), F.data(), N)); P(r, DST::integral(std::sin(x), std::cos(x), F.data(), N)); P(r, DST::integral(std::sin(x), std::cos(x), std::sin(y), std::cos(y), F.data(), N)); Pi(r, d->N()); });
+    }
+  }
+  return S;
+}
+static Suite mk_accumulator(uint64_t seed, bool) {
+  Suite S; S.cls = "Accumulator"; Rng g(seed);
+  for (int j = 0; j < 2; ++j) {
+    auto ap = S.own(new Accumulator<double>(g.range(-1e10, 1e10))); Accumulator<double>* q = ap.get();
+    for (int k = 0; k < 20; ++k) *q += g.range(-1, 1) * std::ldexp(1.0, int(g.next() % 80) - 40);
+    const Accumulator<double>* a = q;
+    for (int k = 0; k < 6; ++k) {
+      double y = g.range(-1e6, 1e6); std::string t = std::to_string(j) + "." + std::to_string(k);
+      S.add("operator()#" + t, [=](Res& r) { P(r, (*a)()); P(r, (*a)(y)); Pi(r, *a == y); Pi(r, *a != y); Pi(r, *a < y); Pi(r, *a <= y); Pi(r, *a > y); Pi(r, *a >= y); Accumulator<double> b(*a); b += y; P(r, b()); });
+    }
   }
   return S;
 }
@@ -607,14 +684,54 @@ static std::vector<std::pair<std::string, Maker>>& suites() {
     {"Ellipsoid", mk_ellipsoid}, {"AuxLatitude", mk_auxlat}, {"EllipticFunction", mk_elliptic}, {"NormalGravity", mk_normalgravity},
     {"SphericalHarmonic", mk_harmonic}, {"GravityModel", mk_gravity}, {"MagneticModel", mk_magnetic}, {"Geoid(threadsafe)", mk_geoid},
     {"static", mk_static},
+    {"GeodesicProjections", mk_geodproj}, {"PolygonArea", mk_polygon}, {"DST", [](uint64_t s, bool f) { return mk_dst("DST", false, s, f); }}, {"DST(generic)", [](uint64_t s, bool f) { return mk_dst("DST(generic)", true, s, f); }},
+    {"Accumulator", mk_accumulator},
   };
   return v;
 }
 
-static void run_mt(const std::string& cls, int nth, int iters, uint64_t seed) {
+// ---- background construction: objects of EVERY class are constructed and destroyed by extra threads while the shared instance is
+// in use (op mtc).  The square-root table of SphericalEngine is established first (RootTable, as SphericalEngine.hpp prescribes: its
+// growth is a documented exclusion); the pool never asks for a higher degree.  The list of class names is the one the obligation
+// `ctor_static_state_covered` is checked against (Model/Effects.lean `backgroundConstructed`).
+struct PoolFiles { std::string egm, wmm, pgm; };
+struct NNDist { double operator()(const int& a, const int& b) const { return std::fabs(double(a - b)); } };
+static const int kRootDegree = 40;
+static std::vector<std::pair<std::string, std::function<void(Rng&)>>> ctor_pool(const PoolFiles& pf) {
+  std::vector<std::pair<std::string, std::function<void(Rng&)>>> v;
+  auto ell = [](Rng& g) { return pickEll(g, true, true); };
+  v.push_back({"Geodesic", [=](Rng& g) { Ell e = ell(g); Geodesic a(e.a, e.f), b(e.a, e.f, true); GeodesicLine l = a.Line(1, 2, 3); (void)l; }});
+  v.push_back({"GeodesicExact", [=](Rng& g) { Ell e = ell(g); GeodesicExact a(e.a, g.coin() ? e.f : 0.75); GeodesicLineExact l = a.Line(1, 2, 3, GeodesicExact::ALL); (void)l; }});
+  v.push_back({"Rhumb", [=](Rng& g) { Ell e = ell(g); Rhumb a(e.a, e.f, g.coin()); RhumbLine l = a.Line(1, 2, 3); (void)l; }});
+  v.push_back({"TransverseMercator", [=](Rng& g) { Ell e = ell(g); TransverseMercator a(e.a, e.f, 0.9996, g.coin()); TransverseMercatorExact b(e.a, e.f, 0.9996, g.coin()); }});
+  v.push_back({"PolarStereographic", [=](Rng& g) { Ell e = ell(g); PolarStereographic a(e.a, e.f, 0.994); LambertConformalConic b(e.a, e.f, 30, 50, 1); AlbersEqualArea c(e.a, e.f, 30, 50, 1); }});
+  v.push_back({"Geocentric", [=](Rng& g) { Ell e = ell(g); Geocentric a(e.a, e.f); LocalCartesian b(10, 20, 30, a); Ellipsoid c(e.a, e.f); }});
+  v.push_back({"AuxLatitude", [=](Rng& g) { Ell e = ell(g); AuxLatitude a(e.a, e.f); DAuxLatitude b(e.a, e.f); AuxLatitude c(AuxLatitude::axes(e.a, e.a * (1 - e.f))); EllipticFunction d(0.3, 0.1); d.Reset(0.5, 0.2); }});
+  v.push_back({"NormalGravity", [=](Rng&) { NormalGravity a(Constants::WGS84_a(), Constants::WGS84_GM(), Constants::WGS84_omega(), Constants::WGS84_f(), true); }});
+  v.push_back({"SphericalHarmonic", [=](Rng& g) { int N = 3 + int(g.next() % 12); int nc = SphericalEngine::coeff::Csize(N, N), ns = SphericalEngine::coeff::Ssize(N, N);
+    std::vector<double> C(size_t(nc), 0.5), S(size_t(ns), 0.25); SphericalEngine::coeff co(C, S, N); SphericalHarmonic h(C, S, N, 6.4e6); SphericalHarmonic1 h1(C, S, N, C, S, N, 6.4e6); SphericalHarmonic2 h2(C, S, N, C, S, N, C, S, N, 6.4e6);
+    CircularEngine ce = h.Circle(6.5e6, 1e5, true); (void)ce; SphericalEngine::RootTable(N); }});
+  v.push_back({"GravityModel", [=](Rng&) { GravityModel m(pf.egm, tmpdir()); GravityCircle c = m.Circle(10, 100, GravityModel::ALL); (void)c; }});
+  v.push_back({"MagneticModel", [=](Rng&) { MagneticModel m(pf.wmm, tmpdir()); MagneticCircle c = m.Circle(2025, 10, 100); (void)c; }});
+  v.push_back({"Geoid", [=](Rng& g) { Geoid a(pf.pgm, tmpdir(), g.coin(), true); Geoid b(pf.pgm, tmpdir(), true, false); (void)b(10.0, 20.0); }});
+  v.push_back({"DST", [=](Rng& g) { DST d(4 << (g.next() % 4)); d.reset(12); }});
+  v.push_back({"GeodesicProjections", [=](Rng& g) { Ell e = ell(g); Geodesic geod(e.a, e.f); AzimuthalEquidistant a(geod); Gnomonic b(geod); CassiniSoldner c(10, 20, geod); c.Reset(20, 30); }});
+  v.push_back({"PolygonArea", [=](Rng& g) { Ell e = ell(g); Geodesic geod(e.a, e.f); PolygonArea p(geod); p.AddPoint(1, 2); p.AddPoint(3, 4); p.AddPoint(1, 5); double a, b; p.Compute(false, true, a, b); p.Clear();
+    Accumulator<double> acc(1.0); acc += 1e-20; acc = 3.0; GeoCoords gc(10.0, 23.5); gc.SetAltZone(35); (void)gc.AltEasting(); }});
+  v.push_back({"Intersect", [=](Rng& g) { Ell e = ell(g); Geodesic geod(e.a, e.f); Intersect in(geod); Intersect::Point q = in.Closest(0, 0, 45, 1, 2, 135); (void)q; (void)in.NumInverse();
+    std::vector<int> pts = {1, 5, 9, 20, 33}; NNDist dd; NearestNeighbor<double, int, NNDist> nn(pts, dd); std::vector<int> ind; nn.Search(pts, dd, 7, ind); int s1, s2, s3, s4, s5; double m, sd; nn.Statistics(s1, s2, s3, s4, s5, m, sd); }});
+  return v;
+}
+
+static void run_mt(const std::string& cls, int nth, int iters, uint64_t seed, bool background = false) {
   const Maker* mk = nullptr; for (auto& kv : suites()) if (kv.first == cls) mk = &kv.second;
   if (!mk) { bad("harness", "unknown class " + cls); emit("0 0 1 0"); return; }
   if (nth < 2) nth = 2; if (nth > 64) nth = 64; if (iters < 1) iters = 1;
+  std::vector<std::pair<std::string, std::function<void(Rng&)>>> pool;
+  if (background) {
+    try { SphericalEngine::RootTable(kRootDegree); PoolFiles pf{write_egm(seed + 777), write_wmm(seed + 778), write_pgm(seed + 779, 8, 5)}; pool = ctor_pool(pf); }
+    catch (const std::exception& e) { bad("harness", std::string("cannot prepare the construction pool: ") + e.what()); emit("0 0 1 0 0 0"); return; }
+  }
   Suite S;
   try { S = (*mk)(seed, false); }                     // the shared instance(s)
   catch (const std::exception& e) { bad("harness", std::string("cannot build the shared instance: ") + e.what()); emit("0 0 1 0 0"); return; }
@@ -624,7 +741,19 @@ static void run_mt(const std::string& cls, int nth, int iters, uint64_t seed) {
   struct Mis { long n = 0; int call = -1, iter = -1; Res got, exp; };
   std::vector<Mis> mis(nth);
   std::atomic<int> ready(0);
-  std::vector<std::thread> th;
+  std::atomic<bool> users_done(false); std::atomic<long> constructed(0), ctor_throw(0); std::string throw_what[2];
+  std::vector<std::thread> th, bg;
+  const int nbg = pool.empty() ? 0 : 2;
+  for (int b = 0; b < nbg; ++b)
+    bg.emplace_back([&, b]() {
+      Rng g(seed * 31 + uint64_t(b) + 5);
+      while (ready.load() < nth) std::this_thread::yield();
+      size_t off = b ? pool.size() / 2 : 0;
+      do { for (size_t j = 0; j < pool.size(); ++j) { auto& e = pool[(j + off) % pool.size()];
+             try { e.second(g); ++constructed; } catch (const std::exception& x) { ++ctor_throw; throw_what[b] = e.first + ": " + x.what(); }
+             if (users_done.load() && constructed.load() >= long(pool.size())) break; }
+      } while (!users_done.load());
+    });
   for (int t = 0; t < nth; ++t)
     th.emplace_back([&, t]() {
       ++ready; while (ready.load() < nth) std::this_thread::yield();          // barrier: first touches happen concurrently
@@ -637,8 +766,10 @@ static void run_mt(const std::string& cls, int nth, int iters, uint64_t seed) {
         }
     });
   for (auto& x : th) x.join();
+  users_done = true; for (auto& x : bg) x.join();
   std::string img1 = S.image ? S.image() : std::string();
   long nmis = 0;
+  if (ctor_throw.load()) { ++nmis; BAD("harness", "a constructor of the background pool threw (" + std::to_string(ctor_throw.load()) + " times): " + throw_what[0] + " " + throw_what[1]); }
   for (int t = 0; t < nth; ++t) if (mis[t].n) { nmis += mis[t].n;
       BAD("thread-result-differs", "class=" + cls + " call=" + S.calls[mis[t].call].name + " thread=" + std::to_string(t) + " iteration=" + std::to_string(mis[t].iter) + " differs from the same thread's first result: got=" + show(mis[t].got) + " first=" + show(mis[t].exp) + " (" + std::to_string(mis[t].n) + " calls)"); }
   // solo: the shared instance alone, then a fresh instance that was never shared
@@ -657,27 +788,88 @@ static void run_mt(const std::string& cls, int nth, int iters, uint64_t seed) {
   if (img0 != img1) { ++nmis; size_t k = 0; while (k < img0.size() && img0[k] == img1[k]) ++k;
     BAD("const-call-modified-object", "class=" + cls + ": the object representation of the shared instance changed during concurrent const calls (first difference at byte " + std::to_string(k) + " of " + std::to_string(img0.size()) + ")"); }
   stat("calls", long(nc) * nth * iters); stat("values", nvals);
-  char b[160]; std::snprintf(b, sizeof b, "%zu %ld %ld %016llx %zu", nc, long(nc) * nth * iters, nmis, (unsigned long long)hsh, img0.size());
+  char b[200];
+  if (background) { stat("background_constructions", constructed.load()); std::snprintf(b, sizeof b, "%zu %ld %ld %016llx %zu %ld", nc, long(nc) * nth * iters, nmis, (unsigned long long)hsh, img0.size(), constructed.load()); }
+  else std::snprintf(b, sizeof b, "%zu %ld %ld %016llx %zu", nc, long(nc) * nth * iters, nmis, (unsigned long long)hsh, img0.size());
+  emit(b);
+}
+
+// ---- first use: a FRESHLY constructed shared instance; all threads wait in a spin barrier (no yield, no lock) and then make their
+// FIRST call at the same moment -- the same call site `which` for every thread (then the next one).  Whatever a const function
+// fills or records on first use (a memo, a lazily built table, a hand-rolled "initialised" flag) is written by all threads at once.
+static void run_fu(const std::string& cls, int nth, uint64_t which, uint64_t seed) {
+  const Maker* mk = nullptr; for (auto& kv : suites()) if (kv.first == cls) mk = &kv.second;
+  if (!mk) { bad("harness", "unknown class " + cls); emit("0 0 1 0"); return; }
+  if (nth < 2) nth = 2; if (nth > 16) nth = 16;
+  Suite S;
+  try { S = (*mk)(seed, false); }
+  catch (const std::exception& e) { bad("harness", std::string("cannot build the shared instance: ") + e.what()); emit("0 0 1 0 0"); return; }
+  const size_t nc = S.calls.size(); if (!nc) { bad("harness", "empty suite " + cls); emit("0 0 1 0 0"); return; }
+  const size_t i0 = size_t(mix(which * 0x9e3779b97f4a7c15ULL + seed) % nc), i1 = (i0 + 1) % nc;
+  std::string img0 = S.image ? S.image() : std::string();
+  const size_t nT = size_t(nth); std::vector<Res> r0(nT), r1(nT);
+  std::atomic<int> ready(0);
+  std::vector<std::thread> th;
+  for (int t = 0; t < nth; ++t)
+    th.emplace_back([&, t]() {
+      ready.fetch_add(1, std::memory_order_acq_rel);
+      while (ready.load(std::memory_order_acquire) < nth) { }                   // spin
+      runcall(S.calls[i0], r0[size_t(t)]); runcall(S.calls[i1], r1[size_t(t)]);
+    });
+  for (auto& x : th) x.join();
+  std::string img1 = S.image ? S.image() : std::string();
+  long nmis = 0;
+  Suite F; try { F = (*mk)(seed, true); } catch (const std::exception&) {}
+  if (F.calls.size() != nc) { bad("harness", "suite not deterministic for " + cls); emit("0 0 1 0 0"); return; }
+  Res f0, f1; runcall(F.calls[i0], f0); runcall(F.calls[i1], f1);                // a fresh equal object that was never shared
+  uint64_t hsh = 1469598103934665603ULL; long nvals = 0;
+  for (uint64_t v : f0) { hsh ^= v; hsh *= 1099511628211ULL; ++nvals; } for (uint64_t v : f1) { hsh ^= v; hsh *= 1099511628211ULL; ++nvals; }
+  for (int t = 0; t < nth; ++t) {
+    if (r0[size_t(t)] != f0) { ++nmis; BAD("thread-result-differs", "class=" + cls + " first call " + S.calls[i0].name + " made by all " + std::to_string(nth) + " threads at once on a fresh shared object, thread=" + std::to_string(t) + ": concurrent=" + show(r0[size_t(t)]) + " alone on a fresh equal object=" + show(f0)); break; }
+    if (r1[size_t(t)] != f1) { ++nmis; BAD("thread-result-differs", "class=" + cls + " second call " + S.calls[i1].name + " after a concurrent first use, thread=" + std::to_string(t) + ": concurrent=" + show(r1[size_t(t)]) + " alone on a fresh equal object=" + show(f1)); break; }
+  }
+  if (img0 != img1) { ++nmis; BAD("const-call-modified-object", "class=" + cls + ": the object representation of the fresh shared instance changed during the concurrent first calls of " + S.calls[i0].name); }
+  stat("calls", 2L * nth); stat("values", nvals);
+  char b[200]; std::snprintf(b, sizeof b, "%zu %ld %ld %016llx %zu", nc, 2L * nth, nmis, (unsigned long long)hsh, img0.size());
   emit(b);
 }
 
 // Every mt op runs in a forked child (the parent never starts a thread and never touches the library): each op starts from a
 // pristine process, so singletons and lazily filled state are first touched concurrently in EVERY op, and a ThreadSanitizer
 // halt (exit code 66) or a crash ends only that op and is reported against it.
+static void forked(const Args& a, const std::function<void()>& body);
 static Reg r_mt("mt", [](const Args& a) {
   if (a.size() < 4) { bad("harness", "mt needs <class> <nthreads> <iters> <seed>"); return; }
   int nth = std::atoi(a[1].c_str()), iters = std::atoi(a[2].c_str()); uint64_t seed = std::strtoull(a[3].c_str(), nullptr, 10);
-  if (std::getenv("GV_NOFORK")) { run_mt(a[0], nth, iters, seed); return; }
+  forked(a, [&]() { run_mt(a[0], nth, iters, seed); });
+});
+// the same with two more threads that construct and destroy unrelated objects of every class meanwhile
+static Reg r_mtc("mtc", [](const Args& a) {
+  if (a.size() < 4) { bad("harness", "mtc needs <class> <nthreads> <iters> <seed>"); return; }
+  int nth = std::atoi(a[1].c_str()), iters = std::atoi(a[2].c_str()); uint64_t seed = std::strtoull(a[3].c_str(), nullptr, 10);
+  forked(a, [&]() { run_mt(a[0], nth, iters, seed, true); });
+});
+// first use: fu <class> <nthreads> <which call site> <seed>
+static Reg r_fu("fu", [](const Args& a) {
+  if (a.size() < 4) { bad("harness", "fu needs <class> <nthreads> <which> <seed>"); return; }
+  int nth = std::atoi(a[1].c_str()); uint64_t which = std::strtoull(a[2].c_str(), nullptr, 10), seed = std::strtoull(a[3].c_str(), nullptr, 10);
+  forked(a, [&]() { run_fu(a[0], nth, which, seed); });
+});
+static void forked(const Args& a, const std::function<void()>& body) {
+  if (std::getenv("GV_NOFORK")) { body(); return; }
   std::fflush(stdout); std::fflush(stderr);
-  int pfd[2]; if (pipe(pfd) != 0) { run_mt(a[0], nth, iters, seed); return; }
+  int pfd[2]; if (pipe(pfd) != 0) { body(); return; }
   pid_t pid = fork();
-  if (pid < 0) { close(pfd[0]); close(pfd[1]); run_mt(a[0], nth, iters, seed); return; }
+  if (pid < 0) { close(pfd[0]); close(pfd[1]); body(); return; }
   if (pid == 0) {
     dup2(pfd[1], 2); close(pfd[0]); close(pfd[1]);
     stats().clear();
-    run_mt(a[0], nth, iters, seed);
+    body();
     for (auto& kv : stats()) std::printf("#STAT %s %ld\n", kv.first.c_str(), kv.second);
-    std::fflush(stdout); _exit(0);
+    std::fflush(stdout);
+    for (auto& p : tmpfiles()) std::remove(p.c_str());
+    if (!tmpfiles().empty()) rmdir(tmpdir().c_str());
+    _exit(0);
   }
   close(pfd[1]);
   std::string err; char buf[4096]; ssize_t n;
@@ -699,7 +891,7 @@ static Reg r_mt("mt", [](const Args& a) {
   (void)0;
   stat("ops_ended_by_sanitizer_or_crash");
   std::fwrite(err.data(), 1, std::min<size_t>(err.size(), 6000), stderr);
-});
+}
 
 // the stage radices kissfft chooses for a transform length (compared in Lean with the model `kissRadices`, on which the
 // obligation "the generic butterfly is never reached from GeodesicExact" rests)
@@ -725,9 +917,11 @@ void gv::generate(const std::string& tier, uint64_t seed) {
     for (int N : {2, 3, 4, 6, 96, 1536, 4096}) run("dstlen", {std::to_string(N)});
   };
   int rounds = th ? 16 : 6;
+  auto skip = [](const std::string& c) { return c == "DST(generic)"; };          // outside the quantifier: see the stratum below
   for (int round = 0; round < rounds; ++round)
     for (auto& kv : suites()) {
       if (round > 0 && kv.first == "Singletons") continue;      // a first touch happens once per process
+      if (skip(kv.first)) continue;
       int nth = th ? g.irange(4, 16) : g.irange(4, 8);
       int iters = th ? g.irange(3, 12) : g.irange(2, 8);
       stratum(kv.first + (nth >= 8 ? "/threads>=8" : "/threads<8"));
@@ -736,6 +930,30 @@ void gv::generate(const std::string& tier, uint64_t seed) {
       run("mt", {kv.first, std::to_string(nth), std::to_string(iters), std::to_string(s)});
       if (round == 0 && kv.first == "Singletons") aux();
     }
+  // first use: every class, a fresh shared instance per op, all threads make the same first call at once (spin barrier)
+  int nfu = th ? 12 : 3;
+  for (int k = 0; k < nfu; ++k)
+    for (auto& kv : suites()) {
+      if (skip(kv.first)) continue;
+      int nth = th ? g.irange(4, 12) : g.irange(4, 6);
+      stratum(kv.first + "/first-use");
+      run("fu", {kv.first, std::to_string(nth), std::to_string(g.next() % 100000), std::to_string(g.next() % 1000000007ULL)});
+    }
+  // a shared instance in use while two more threads construct and destroy unrelated objects of every class
+  int nmtc = th ? 4 : 1;
+  for (int k = 0; k < nmtc; ++k)
+    for (auto& kv : suites()) {
+      if (skip(kv.first) || kv.first == "Singletons") continue;
+      int nth = th ? g.irange(3, 8) : g.irange(3, 5);
+      stratum(kv.first + "/while-others-are-constructed");
+      run("mtc", {kv.first, std::to_string(nth), std::to_string(th ? g.irange(2, 6) : 2), std::to_string(g.next() % 1000000007ULL)});
+    }
+  // the singletons first touched while other threads construct objects: one op
+  stratum("Singletons/while-others-are-constructed");
+  run("mtc", {"Singletons", std::to_string(g.irange(4, 6)), "2", std::to_string(g.next() % 1000000007ULL)});
+  // DST used directly with a length that has a prime factor > 5 (not reachable from GeodesicExact; DST is not in the property's quantifier)
+  stratum("DST(generic)/outside-quantifier");
+  run("mt", {"DST(generic)", "4", "3", std::to_string(g.next() % 1000000007ULL)});
 }
 
 int main(int c, char** v) {
